@@ -48,6 +48,7 @@ structure IdleInv (s : DState) (_g : Unit) : Prop where
   cfg : s.cfg.hasContacts = false
   phase : s.phase = .awaitStart ∨ s.phase = .forever
   stale : s.stale = []
+  ready : s.ready = []
 
 theorem scanA (t : Nat) (evs : List DEv) (h : ∀ e ∈ evs, e.isAttempt = false) : scanL c15aScan () t evs = some () := by
   induction evs with
@@ -63,7 +64,7 @@ theorem liftH_noAttempt (effs : List HEffect) : ∀ e ∈ liftH effs, e.isAttemp
   cases x <;> rfl
 
 theorem IdleInv.hframe {s s' : DState} (h : IdleInv s ()) (hf : HFrame s s') : IdleInv s' () :=
-  ⟨hf.cfg ▸ h.cfg, by rw [hf.phase]; exact h.phase, by rw [hf.stale]; exact h.stale⟩
+  ⟨hf.cfg ▸ h.cfg, by rw [hf.phase]; exact h.phase, by rw [hf.stale]; exact h.stale, by rw [hf.ready]; exact h.ready⟩
 
 theorem beginAttempt_noContacts (s : DState) (now : Nat) (h : s.cfg.hasContacts = false) :
     s.beginAttempt now = ({ ({ s with stale := [] } : DState).setPub .bootstrapped |>.1 with phase := .forever },
@@ -116,10 +117,13 @@ theorem bootstrapSuccess_noAttempt (s : DState) (now : Nat) : ∀ e ∈ (s.boots
     · exact startQueued_noAttempt _ now e he
 
 theorem c15a_obligations : Obligations IdleInv c15aScan where
-  clock := fun s g d h => ⟨h.cfg, h.phase, h.stale⟩
-  oracle := fun s g fr h => ⟨h.cfg, h.phase, h.stale⟩
+  clock := fun s g d h => ⟨h.cfg, h.phase, h.stale, h.ready⟩
+  oracle := fun s g fr h => ⟨h.cfg, h.phase, h.stale, h.ready⟩
   worker := fun s g now r h hb => by
     unfold DState.bStep at hb
+    rw [h.ready] at hb
+    simp only at hb
+    unfold DState.bStepMain at hb
     rcases h.phase with hp | hp <;> simp [hp] at hb
   timer := fun s g now r h hf => by
     have hfr := fireOne_hframe s now r hf
@@ -153,8 +157,8 @@ theorem c15a_obligations : Obligations IdleInv c15aScan where
       split
       · have hb := bootstrapSuccess_hframe { s with seenVersion := s.pubVersion } now
         refine ⟨(), scanA _ _ (bootstrapSuccess_noAttempt _ now), ?_⟩
-        exact (IdleInv.hframe (s := { s with seenVersion := s.pubVersion }) ⟨h.cfg, h.phase, h.stale⟩ hb.1)
-      · exact ok_nil _ () now ⟨h.cfg, h.phase, h.stale⟩
+        exact (IdleInv.hframe (s := { s with seenVersion := s.pubVersion }) ⟨h.cfg, h.phase, h.stale, h.ready⟩ hb.1)
+      · exact ok_nil _ () now ⟨h.cfg, h.phase, h.stale, h.ready⟩
   command := fun s g now c h => by
     cases c with
     | startBootstrap =>
@@ -171,13 +175,16 @@ theorem c15a_obligations : Obligations IdleInv c15aScan where
           exact ⟨by rw [hsp.1.cfg]; exact h.cfg, Or.inr rfl, by
             have : ((({ s with stale := [] } : DState).setPub .bootstrapped).1).stale = [] := by
               unfold DState.setPub; split <;> rfl
-            exact this⟩
+            exact this, by
+            have : ((({ s with stale := [] } : DState).setPub .bootstrapped).1).ready = s.ready := by
+              unfold DState.setPub; split <;> rfl
+            exact this.trans h.ready⟩
       · exact ⟨(), rfl, h⟩
     | checkBootstrap =>
       simp only [DState.command]
       split
-      · exact ⟨(), rfl, ⟨h.cfg, h.phase, h.stale⟩⟩
-      · exact ⟨(), rfl, ⟨h.cfg, h.phase, h.stale⟩⟩
+      · exact ⟨(), rfl, ⟨h.cfg, h.phase, h.stale, h.ready⟩⟩
+      · exact ⟨(), rfl, ⟨h.cfg, h.phase, h.stale, h.ready⟩⟩
     | startLookup ih ann =>
       simp only [DState.command]
       have hf := startLookup_hframe s ih ann now
@@ -205,7 +212,7 @@ theorem c15a_obligations : Obligations IdleInv c15aScan where
       split at heq
       · cases heq
       · rw [hnone] at heq; cases heq
-    · refine ⟨(), scanA _ _ ?_, ⟨h.cfg, h.phase, h.stale⟩⟩
+    · refine ⟨(), scanA _ _ ?_, ⟨h.cfg, h.phase, h.stale, h.ready⟩⟩
       intro e he
       simp only [List.cons_append, List.nil_append, List.mem_cons] at he
       rcases he with rfl | he
@@ -228,7 +235,7 @@ a round, get a datagram routed to it or run a periodic check. -/
 theorem C15_no_contacts (selfId : Bytes) (addr : Addr) (ro : Bool) (port : Option Nat) (fa : List Addr)
     (cfg : BConfig) (t0 : Nat) (ins : List DInput) (h : cfg.hasContacts = false) :
     ∀ e ∈ ((DState.new selfId addr ro port fa cfg t0).run ins).2, e.2.isAttempt = false := by
-  obtain ⟨g, hs, _⟩ := run_ok c15a_obligations (DState.new selfId addr ro port fa cfg t0) () ins ⟨h, Or.inl rfl, rfl⟩
+  obtain ⟨g, hs, _⟩ := run_ok c15a_obligations (DState.new selfId addr ro port fa cfg t0) () ins ⟨h, Or.inl rfl, rfl, rfl⟩
   generalize ((DState.new selfId addr ro port fa cfg t0).run ins).2 = evs at hs
   induction evs with
   | nil => simp
@@ -440,59 +447,82 @@ theorem c15b_obligations : Obligations AInv c15bScan where
   clock := fun s g d h => ⟨h.cfg, fun ha => h.early ha⟩
   oracle := fun s g fr h => ⟨h.cfg, fun ha => h.early ha⟩
   worker := fun s a now r h hb => by
-    obtain ⟨hf, _⟩ := bStep_frame s now r hb
-    obtain ⟨s', evs⟩ := r
-    refine okB_of s s' a now evs h hf.cfg (fun ha => ?_)
-    have he := h.early ha
-    obtain ⟨hpub, hph⟩ := he
     unfold DState.bStep at hb
-    cases hphase : s.phase with
-    | awaitStart => simp [hphase] at hb
-    | forever => simp [hphase] at hb
-    | bucketStart k => rw [hphase] at hph; exact absurd hph (by simp)
-    | buckets k a => rw [hphase] at hph; exact absurd hph (by simp)
-    | bootstrapped c => rw [hphase] at hph; exact absurd hph (by simp)
-    | sleeping w =>
-      simp only [hphase] at hb
-      split at hb
-      · simp only [Option.some.injEq] at hb
-        have := beginAttempt_early s now h.cfg
-        rw [hb] at this
-        exact ⟨this.1, this.2.1⟩
-      · simp at hb
-    | initial tid rl nl sl count active responses stopAt =>
-      rw [hphase] at hph
-      simp only at hph
-      subst hph
-      simp only [hphase] at hb
-      split at hb
-      · simp only [Option.some.injEq, Prod.mk.injEq] at hb
-        obtain ⟨rfl, rfl⟩ := hb
-        exact ⟨⟨hpub, rfl⟩, by simp⟩
-      · have hsend : ∀ r', s.firstRoundSend tid rl nl count active 0 stopAt now = some r' →
-            Early r'.1 ∧ ∀ e ∈ r'.2, e.isGate = false := by
-          intro r' hr
-          unfold DState.firstRoundSend at hr
-          split at hr
-          · simp at hr
-          · simp only [Option.some.injEq] at hr; subst hr
-            exact ⟨⟨hpub, rfl⟩, by simp [DEv.isGate]⟩
+    split at hb
+    · -- an answer that was routed to one of the worker's exchanges is handled now: a response counts
+      rename_i p body src rest _
+      simp only [Option.some.injEq] at hb; subst hb
+      have hw := workerMessage_frame { s with ready := rest } p body src now
+      have hcfg : (({ s with ready := rest } : DState).workerMessage p body src now).1.cfg.hasContacts = true := by
+        rw [hw.1.cfg]; exact h.cfg
+      cases a with
+      | true => exact ⟨true, scanB_true _ _, ⟨hcfg, fun hc => by cases hc⟩⟩
+      | false =>
+        have he : Early { s with ready := rest } := h.early rfl
+        by_cases hresp : ∃ r, body = .resp r
+        · obtain ⟨r, rfl⟩ := hresp
+          rcases workerMessage_resp { s with ready := rest } p r src now he with ⟨hnil, hearly⟩ | ⟨rest', hcons⟩
+          · exact ⟨false, by rw [hnil]; rfl, ⟨hcfg, fun _ => hearly⟩⟩
+          · refine ⟨true, ?_, ⟨hcfg, fun hc => by cases hc⟩⟩
+            rw [hcons]
+            simp only [scanL, c15bScan]
+            exact scanB_true now rest'
+        · have hn := workerMessage_nonresp { s with ready := rest } p body src now (fun r hr => hresp ⟨r, hr⟩) he
+          exact ⟨false, scanB_plain _ _ _ hn.2, ⟨hcfg, fun _ => hn.1⟩⟩
+    · -- one of the worker's own transitions
+      obtain ⟨hf, _⟩ := bStepMain_frame s now r hb
+      obtain ⟨s', evs⟩ := r
+      refine okB_of s s' a now evs h hf.cfg (fun ha => ?_)
+      have he := h.early ha
+      obtain ⟨hpub, hph⟩ := he
+      unfold DState.bStepMain at hb
+      cases hphase : s.phase with
+      | awaitStart => simp [hphase] at hb
+      | forever => simp [hphase] at hb
+      | bucketStart k => rw [hphase] at hph; exact absurd hph (by simp)
+      | buckets k a => rw [hphase] at hph; exact absurd hph (by simp)
+      | bootstrapped c => rw [hphase] at hph; exact absurd hph (by simp)
+      | sleeping w =>
+        simp only [hphase] at hb
         split at hb
-        · split at hb
-          · simp only [Option.some.injEq] at hb
-            have := finishInitial_zero s [] now hpub
-            rw [hb] at this
-            exact ⟨this.1, this.2.1⟩
-          · simp at hb
-        · split at hb
+        · simp only [Option.some.injEq] at hb
+          have := beginAttempt_early s now h.cfg
+          rw [hb] at this
+          exact ⟨this.1, this.2.1⟩
+        · simp at hb
+      | initial tid rl nl sl count active responses stopAt =>
+        rw [hphase] at hph
+        simp only at hph
+        subst hph
+        simp only [hphase] at hb
+        split at hb
+        · simp only [Option.some.injEq, Prod.mk.injEq] at hb
+          obtain ⟨rfl, rfl⟩ := hb
+          exact ⟨⟨hpub, rfl⟩, by simp⟩
+        · have hsend : ∀ r', s.firstRoundSend tid rl nl count active 0 stopAt now = some r' →
+              Early r'.1 ∧ ∀ e ∈ r'.2, e.isGate = false := by
+            intro r' hr
+            unfold DState.firstRoundSend at hr
+            split at hr
+            · simp at hr
+            · simp only [Option.some.injEq] at hr; subst hr
+              exact ⟨⟨hpub, rfl⟩, by simp [DEv.isGate]⟩
+          split at hb
           · split at hb
-            · exact hsend _ hb
+            · simp only [Option.some.injEq] at hb
+              have := finishInitial_zero s [] now hpub
+              rw [hb] at this
+              exact ⟨this.1, this.2.1⟩
             · simp at hb
           · split at hb
-            · simp only [Option.some.injEq, Prod.mk.injEq] at hb
-              obtain ⟨rfl, rfl⟩ := hb
-              exact ⟨⟨hpub, rfl⟩, by simp⟩
-            · exact hsend _ hb
+            · split at hb
+              · exact hsend _ hb
+              · simp at hb
+            · split at hb
+              · simp only [Option.some.injEq, Prod.mk.injEq] at hb
+                obtain ⟨rfl, rfl⟩ := hb
+                exact ⟨⟨hpub, rfl⟩, by simp⟩
+              · exact hsend _ hb
   timer := fun s a now r h hf => by
     have hfr := fireOne_hframe s now r hf
     obtain ⟨s', evs⟩ := r
@@ -573,32 +603,9 @@ theorem c15b_obligations : Obligations AInv c15bScan where
     unfold DState.datagram
     simp only
     split
-    · -- routed to the worker: a response counts as the answer
-      rename_i p _
-      have hw := workerMessage_frame s p body src now
-      cases a with
-      | true => exact ⟨true, scanB_true _ _, ⟨hw.1.cfg ▸ h.cfg, fun hc => by cases hc⟩⟩
-      | false =>
-        have he := h.early rfl
-        by_cases hresp : ∃ r, body = .resp r
-        · obtain ⟨r, rfl⟩ := hresp
-          rcases workerMessage_resp s p r src now he with ⟨hnil, hearly⟩ | ⟨rest, hcons⟩
-          · rw [hnil]
-            exact ⟨false, rfl, ⟨hw.1.cfg ▸ h.cfg, fun _ => hearly⟩⟩
-          · rw [hcons]
-            refine ⟨true, ?_, ⟨hw.1.cfg ▸ h.cfg, fun hc => by cases hc⟩⟩
-            show scanL c15bScan false now (DEv.routed src :: DEv.bhandled src :: rest) = some true
-            simp only [scanL, c15bScan]
-            exact scanB_true now rest
-        · have hn := workerMessage_nonresp s p body src now (fun r hr => hresp ⟨r, hr⟩) he
-          refine ⟨false, ?_, ⟨hw.1.cfg ▸ h.cfg, fun _ => hn.1⟩⟩
-          apply scanB_plain
-          intro e he'
-          simp only [List.cons_append, List.nil_append, List.mem_cons] at he'
-          rcases he' with rfl | he'
-          · rfl
-          · exact hn.2 e he'
-    · refine okB_of s _ a now _ h rfl (fun ha => ⟨(h.early ha).hframe ⟨rfl, rfl, rfl, rfl, rfl, rfl, rfl, rfl⟩, ?_⟩)
+    · -- routed to the worker: it waits there until the worker is polled
+      exact okB_of s _ a now _ h rfl (fun ha => ⟨h.early ha, by simp [DEv.isGate]⟩)
+    · refine okB_of s _ a now _ h rfl (fun ha => ⟨(h.early ha).hframe ⟨rfl, rfl, rfl, rfl, rfl, rfl, rfl, rfl, rfl⟩, ?_⟩)
       intro e he
       simp only [List.cons_append, List.nil_append, List.mem_cons] at he
       rcases he with rfl | he
@@ -707,9 +714,8 @@ theorem c15w_obligations : Obligations WInv trivScan where
     unfold DState.datagram
     simp only
     split
-    · rename_i p _
-      exact ⟨(), trivScan_ok _ _, h.wframe (workerMessage_frame s p body src now).1⟩
-    · exact ⟨(), trivScan_ok _ _, h.hframe ⟨rfl, rfl, rfl, rfl, rfl, rfl, rfl, rfl⟩ rfl rfl⟩
+    · exact ⟨(), trivScan_ok _ _, h.wframe (wframe_ready s _)⟩
+    · exact ⟨(), trivScan_ok _ _, h.hframe ⟨rfl, rfl, rfl, rfl, rfl, rfl, rfl, rfl, rfl⟩ rfl rfl⟩
   garbage := fun s g now src h => ⟨(), rfl, h⟩
 
 theorem hObserve_seen (s : DState) (now : Nat) : (s.hObserve now).1.seenVersion = (s.hObserve now).1.pubVersion := by
@@ -721,6 +727,11 @@ theorem hObserve_seen (s : DState) (now : Nat) : (s.hObserve now).1.seenVersion 
     · have hb := bootstrapSuccess_hframe { s with seenVersion := s.pubVersion } now
       rw [hb.2.2, hb.1.version]
     · rfl
+
+/-- every step ends with the handler having looked at the worker's published state -/
+theorem stepG_seen (s : DState) (ops : List DOp) (t : Nat) (bf : Bool) (hold : Bool) :
+    (s.stepG ops t bf hold).1.seenVersion = (s.stepG ops t bf hold).1.pubVersion := by
+  unfold DState.stepG DState.settle; exact hObserve_seen _ _
 
 /-- **C15 (nobody left waiting)**: after every step of every run, if the node's published state is
 `Bootstrapped` no `bootstrapped()` call is left unresolved — a completion is made known to every
@@ -736,8 +747,8 @@ theorem C15_nobody_left_waiting (selfId : Bytes) (addr : Addr) (ro : Bool) (port
   -- a step ends with the handler having observed the worker's state
   have hseen : s.seenVersion = s.pubVersion := by
     show ((((DState.new selfId addr ro port fa cfg t0).run ins).1.stepIn i).1).seenVersion = _
-    unfold DState.stepIn DState.step DState.settle
-    exact hObserve_seen _ _
+    unfold DState.stepIn
+    exact stepG_seen _ _ _ _ _
   exact hi2.none hseen hp
 
 /-- **C15 (all waiters at once)**: handling a completion returns every pending `bootstrapped()`
@@ -865,7 +876,7 @@ theorem beginAttempt_x (s : DState) (now : Nat) : XInv (s.beginAttempt now).1 ()
       refine ⟨by simp [DState.registered, BPhase.active, hs.2.1], by simp [DState.registered, BPhase.active, hs.2.1], ?_⟩
       intro tid rl nl sl count active responses stopAt he
       simp only [BPhase.initial.injEq] at he
-      obtain ⟨rfl, rfl, rfl, rfl, rfl, rfl, rfl, rfl⟩ := he
+      obtain ⟨rfl, rfl, rfl, rfl, rfl, rfl, rfl, rfl, rfl⟩ := he
       refine ⟨rfl, by simp [hs.2.2.1], ?_, hs.2.1, by simp⟩
       have := contacts_nodup s.cfg
       simpa using this
@@ -1061,8 +1072,8 @@ theorem sweepDone_x (s : DState) (now : Nat) (h : XInv s ()) (hph : s.phase.acti
   · have hs := setPub_x s .bootstrapped
     exact xinv_sub s _ h (by simp [hs.2.2.1]) (by simp [BPhase.active]) (by simp [hs.2.1]) (by intro _ _ _ _ _ _ _ _ he; cases he)
 
-theorem bStep_x (s : DState) (now : Nat) (r : DState × List DEv) (h : XInv s ()) (hb : s.bStep now = some r) : XInv r.1 () := by
-  unfold DState.bStep at hb
+theorem bStepMain_x (s : DState) (now : Nat) (r : DState × List DEv) (h : XInv s ()) (hb : s.bStepMain now = some r) : XInv r.1 () := by
+  unfold DState.bStepMain at hb
   cases hphase : s.phase with
   | awaitStart => simp [hphase] at hb
   | forever => simp [hphase] at hb
@@ -1228,12 +1239,18 @@ theorem c15x_obligations : Obligations XInv trivScan where
     unfold DState.datagram
     simp only
     split
-    · -- the worker's handle_message only removes the exchange (and may finish the first round)
-      rename_i p _
-      refine ⟨(), trivScan_ok _ _, ?_⟩
-      exact workerMessage_x s p body src now h
-    · exact ⟨(), trivScan_ok _ _, h.hframe ⟨rfl, rfl, rfl, rfl, rfl, rfl, rfl, rfl⟩⟩
-  worker := fun s g now r h hb => ⟨(), trivScan_ok _ _, bStep_x s now r h hb⟩
+    · -- the answer waits for the worker; the exchange stays in the worker's list until then
+      exact ⟨(), trivScan_ok _ _, ⟨h.nodup, h.drawn, h.first⟩⟩
+    · exact ⟨(), trivScan_ok _ _, h.hframe ⟨rfl, rfl, rfl, rfl, rfl, rfl, rfl, rfl, rfl⟩⟩
+  worker := fun s g now r h hb => by
+    refine ⟨(), trivScan_ok _ _, ?_⟩
+    unfold DState.bStep at hb
+    split at hb
+    · -- an answer routed earlier: handle_message only removes the exchange (and may finish the first round)
+      rename_i p body src rest _
+      simp only [Option.some.injEq] at hb; subst hb
+      exact workerMessage_x { s with ready := rest } p body src now ⟨h.nodup, h.drawn, h.first⟩
+    · exact bStepMain_x s now r h hb
 
 /-- **C15 (the uniqueness assertion cannot fire)**: in every state of every run the exchanges
 registered with the socket have pairwise distinct (address, transaction id) keys — the condition
